@@ -1,7 +1,8 @@
 //! Bounded stand-in / failing-input search for unit U5 (runner, stop reasons, progress measure) — NOT a proof.
 //! host: src/run/runner.rs
-//! Bound: 9 start terms (≤ 9 nodes each) × 9 rule subsets of a 13-rule lambda/arithmetic system, ≤ 4 rounds of
-//! apply_rewrites each; Runner::run / run_eqsat with iter limits {0, 1, 2, 3}, node limits {0, 6, 10_000}, time limits
+//! Bound: 12 start terms (≤ 9 nodes each) × 9 rule subsets of a 19-rule lambda/arithmetic system, ≤ 4 rounds of
+//! apply_rewrites each, and the same terms × 77 sequences that apply ONE rule per round (so that a round can add just one
+//! generator to an already symmetric class, or just one redundancy); Runner::run / run_eqsat with iter limits {0, 1, 2, 3}, node limits {0, 6, 10_000}, time limits
 //! {0 s, 60 s} and hooks failing at round {never, 0, 1, 2}; check_limits on 4 × 4 × 2 hand-made limit triples.
 //! The fingerprint is computed without the progress measure and without the hash-cons size: nodes per class via
 //! `enodes`, the equality partition of the tracked subterms via `eq`, slots per class via `slots`, self-symmetries per
@@ -18,6 +19,8 @@ define_language! {
         Add(AppliedId, AppliedId) = "add",
         Mul(AppliedId, AppliedId) = "mul",
         Sub(AppliedId, AppliedId) = "sub",
+        F3(AppliedId, AppliedId, AppliedId) = "f3",
+        F4(AppliedId, AppliedId, AppliedId, AppliedId) = "f4",
         Number(u32),
     }
 }
@@ -40,6 +43,13 @@ fn rules() -> Vec<(&'static str, &'static str, &'static str)> {
         ("grow", "(add ?a ?b)", "(add (add ?a 0) ?b)"),
         // only makes a slot redundant: no class is created and none dies
         ("forget", "(mul ?a ?b)", "(mul ?a (var $7))"),
+        // symmetries of a class with more than two slots, obtainable one generator at a time (rules 13..18)
+        ("f3-swap", "(f3 ?a ?b ?c)", "(f3 ?b ?a ?c)"),
+        ("f3-rot", "(f3 ?a ?b ?c)", "(f3 ?b ?c ?a)"),
+        ("f4-swap12", "(f4 ?a ?b ?c ?d)", "(f4 ?b ?a ?c ?d)"),
+        ("f4-swap34", "(f4 ?a ?b ?c ?d)", "(f4 ?a ?b ?d ?c)"),
+        ("f4-pairs", "(f4 ?a ?b ?c ?d)", "(f4 ?c ?d ?a ?b)"),
+        ("f3-forget", "(f3 ?a ?b ?c)", "(f3 ?a ?b (var $7))"),
     ]
 }
 
@@ -63,6 +73,9 @@ fn terms() -> Vec<&'static str> {
         "(add (sub (var $1) (var $1)) (var $2))",
         "(lam $1 (add (var $1) (mul (var $2) 0)))",
         "(add (add (var $1) (var $2)) (add (var $3) 0))",
+        "(f3 (var $1) (var $2) (var $3))",
+        "(sub (f4 (var $1) (var $2) (var $3) (var $4)) (f4 (var $3) (var $4) (var $1) (var $2)))",
+        "(mul (f3 (var $1) (var $2) (var $3)) (f3 (var $2) (var $3) (var $1)))",
     ]
 }
 
@@ -172,6 +185,29 @@ pub fn run(only: &[String]) -> Vec<String> {
                 if after.nodes != eg.total_number_of_nodes() && n < 3 {
                     n += 1;
                     fails.push(format!("FAIL EGraph::total_number_of_nodes C15:report.nodes term {} rules {:?} round {}: total_number_of_nodes {} but the classes hold {} nodes", t, idx, round, eg.total_number_of_nodes(), after.nodes));
+                }
+            }
+        }}
+    }
+
+    if want("apply_rewrites") || want("EGraph::progress") {
+        // one rule per round: a later round may add only a generator to an already symmetric class, or only a redundancy
+        let pool: [usize; 9] = [0, 1, 4, 12, 13, 14, 15, 16, 17];
+        let mut seqs: Vec<Vec<usize>> = Vec::new();
+        for a in pool { for b in pool { if a != b { seqs.push(vec![a, b]); } } }
+        for s in [[15usize, 16, 17], [13, 14, 18], [14, 13, 18], [15, 17, 16], [17, 15, 4]] { seqs.push(s.to_vec()); }
+        let mut n = 0;
+        for t in terms() { for seq in &seqs {
+            let (mut eg, tracked) = start(t);
+            for (round, r) in seq.iter().enumerate() {
+                verif_case(format!("term {} one rule per round {:?}, round {}", t, seq, round));
+                let rws = mk_rules(&[*r]);
+                let before = fingerprint(&eg, &tracked);
+                let changed = apply_rewrites(&mut eg, &rws);
+                let after = fingerprint(&eg, &tracked);
+                if !changed && before != after && n < 3 {
+                    n += 1;
+                    fails.push(format!("FAIL apply_rewrites C15:apply_rewrites.false-means-unchanged term {} one rule per round {:?} (rule names: see contracts/bounded/U5.rs), round {}: returned false but {:?} -> {:?}", t, seq, round, before, after));
                 }
             }
         }}
